@@ -23,7 +23,7 @@ CHECKS = {
     "C04": ("exploration", "Hypothesis-generated declarations stratified over all integer widths / bit-group sizes x every truncation point of valid encodings, corruptions, random strings; plus atheris coverage-guided byte fuzzing over a fixed declaration catalogue; oracle = reference parser with explicit bounds checks",
             "For each generated declaration and valid encoding every truncation point (<=64 per encoding) is fed to unpack; any accepted input must also be accepted by the bounds-checking reference parser with equal values; silent=True must agree with raising.",
             "Trusts bv/ir.py; sampled declarations; truncation points exhaustive per encoding up to the cap.", "DESIGN.md section 5 C04"),
-    "C08": ("exploration", "Hypothesis-generated declarations weighted to repeated/optional/referenced fields x valid, truncated, corrupted, random inputs; two-directional differential (values, end offset, accept/reject) against the reference parser",
+    "C08": ("exploration", "Hypothesis-generated declarations weighted to repeated/optional/referenced fields x valid, truncated, corrupted, random inputs; two-directional differential (values, end offset, accept/reject) against the reference parser; earlier results re-read after later parses of the same case",
             "Every input is parsed by bisturi and by the reference interpreter of the declaration; list lengths, element values, Nones, nested packets, the position where parsing continues and accept/reject must agree in both directions.",
             "Trusts bv/ir.py; run-time selected fields restricted to option-independent ones.", "DESIGN.md section 5 C08"),
     "C03": ("exploration", "Hypothesis-generated declarations rendered under the generic loop and under k code-generation option combinations; differential testing of unpack/pack outcomes over generated inputs and values",
@@ -59,7 +59,7 @@ CHECKS = {
     "C17": ("exploration", "bounded-exhaustive enumeration of operation histories (12-op alphabet, length <=5 quick / <=6 thorough) over three described classes x four code paths + Hypothesis-generated long histories; oracle = two-variable state model",
             "Every history of construct/construct-with-keyword/unpack/set tracked/set described/delete/pack/read operations up to the bound is executed from scratch on AutoLength-over-Data, AutoLength-over-repeated and Auto(func) classes under generated and generic pack/unpack; after every step the attribute, pack() bytes, the tracked field and the absence of __dict__ are compared with the model.",
             "Exhaustive up to the stated bound, sampled (length <=50) beyond.", "DESIGN.md section 5 C17"),
-    "C18": ("exploration", "Hypothesis-generated flat declarations x target trees biased to regex metacharacters x fixed/Any subsets x corpora; differential: filter with vs without the regexp pre-filter, plus direct match of the target",
+    "C18": ("exploration", "Hypothesis-generated flat declarations x target trees biased to regex metacharacters x fixed/Any subsets x corpora; differential: filter with vs without the regexp pre-filter, plus direct match of the target; enumerated sweep of partially fixed bit bytes (Any-subset x fixed byte x all 256 candidate bytes)",
             "For every generated pattern packet (fields fixed to the target's values or left as Any / Any(startswith|contains|endswith)) the corpus (target encoding, re-drawn trees keeping the fixed fields, single fixed field changed, truncations, random and metacharacter strings) is filtered with and without the regexp: the results must be identical in order and value; building the expression must not raise; the regexp must match the target's encoding.",
             "The plain filter is the reference. No open known finding (F12/F15 were recorded as open first and repaired later).", "DESIGN.md section 5 C18"),
     "C13": ("exploration", "Hypothesis-generated operation histories over several live packets with per-packet expected trees, identity-disjointness and pack-purity invariants after every step; deterministic line-granular thread scheduler (sys.settrace) with generated schedules + pre-emptive stress",
